@@ -356,14 +356,20 @@ def _t_sample(tier):
     return [c for c in cells(tier) if len(valuations(c)) <= (200 if tier == "quick" else 600)]
 
 
-_NSH = {"P": (5, 12), "T": (11, 36)}
+_NSH = {"P": (3, 8), "T": (9, 30), "R": (3, 8), "C": (1, 4)}
+
+
+def _level_cells(lvl, tier):
+    if lvl == "T":
+        return _t_sample(tier)
+    return cells(tier)  # P, R (run-time design, all valuations simulated), C (compiled fold, sampled valuations)
 
 
 def plan(tier):
     shards = []
     q = 0 if tier == "quick" else 1
-    for lvl in ("P", "T"):
-        n = len(cells(tier)) if lvl == "P" else len(_t_sample(tier))
+    for lvl in ("P", "T", "R", "C"):
+        n = len(_level_cells(lvl, tier))
         k = max(1, min(_NSH[lvl][q], n))
         for i in range(k):
             shards.append({"kind": "enum", "name": f"{lvl}-{i}", "lvl": lvl, "tier": tier, "rem": i, "mod": k})
@@ -371,7 +377,7 @@ def plan(tier):
 
 
 def enumerate(shard):  # noqa: A001 - name fixed by the module contract
-    cs = cells(shard["tier"]) if shard["lvl"] == "P" else _t_sample(shard["tier"])
+    cs = _level_cells(shard["lvl"], shard["tier"])
     for i, c in _enum(cs):
         if i % shard["mod"] == shard["rem"]:
             yield {"lvl": shard["lvl"], "cell": [c[0], c[1], c[2]]}
@@ -398,11 +404,16 @@ def check(case):
     out = Outcome()
     lvl = case["lvl"]
     cell = (case["cell"][0], list(case["cell"][1]), list(case["cell"][2]))
+    if lvl == "R":
+        return _check_runtime(C, out, cell)
+    if lvl == "C":
+        return _check_compiled_fold(C, out, cell)
     op, kinds, widths = cell
     name = cell_name(cell)
     vals = valuations(cell)
     opname = parse_op(op)[0]
-    base = {"op": opname, "kinds": ",".join(kinds), "int_side": _int_side(kinds), "wrel": _wrel(widths), "lvl": lvl}
+    base = {"op": opname, "kinds": ",".join(kinds), "int_side": _int_side(kinds), "wrel": _wrel(widths), "lvl": lvl,
+            "pair": "F-M"}
 
     if lvl == "P":
         res = [fold(cell, v) for v in vals]
@@ -493,16 +504,26 @@ def selfcheck():
             expr_of(c[0])
 
 
-# ----------------------------------------------------------------------------- R: run-time entity (for a later round)
+# ----------------------------------------------------------------------------- R: run-time side
 def _ptype(kind, width):
     return {"bit": "Bit", "bool": "bool", "bv": f"BitVector[{width}]", "u": f"Unsigned[{width}]",
             "s": f"Signed[{width}]"}.get(kind)
 
 
+_HEADER = (
+    "import cohdl\n"
+    "from cohdl import Entity, Port, Bit, BitVector, Unsigned, Signed, Integer, op, std\n\n"
+    "RESULT = {}\n\n\n"
+    "@cohdl.pyeval\n"
+    "def _cv_probe(name, v):\n"
+    "    RESULT[name] = v\n\n\n"
+)
+
+
 def runtime_ports(cell, int_values=None):
     """Ports of render_runtime_entity(cell): {"inputs": [(name, kind, width)], "outputs": [(name, kind, width,
-    ints)]} where `ints` maps the int operand position(s) to the constant used for that output, or None if the
-    cell has no run-time form (result kind int, model UNSPEC for every valuation, ...).
+    ints)]} where `ints` maps the int operand position to the constant used for that output, or None if the
+    cell has no run-time form (result kind int, model UNSPEC for every valuation, no non-int operand).
 
     Operands of kind int/Int are constants in the design (a Python int cannot be a port): there is one output
     per int value (default: every value of the cell's int domain that the model accepts as representable)."""
@@ -540,13 +561,13 @@ def render_runtime_entity(cell, int_values=None, top="Top"):
     """Python source of the run-time design of a cell: operands on input ports `a`/`b` (declared with the
     operand kind/width), the result driven onto output port `o` from a concurrent context, declared with the
     documented result kind/width.  For cells with an int operand: outputs `o_<n>`, one per constant
-    (see runtime_ports).  None if the cell has no run-time form."""
+    (see runtime_ports).  The module also defines RESULT: after compilation RESULT[<output port>] is the
+    Temporary cohdl created for the expression (its run-time result type).  None if there is no run-time form."""
     ports = runtime_ports(cell, int_values)
     if ports is None:
         return None
     op, kinds, widths = cell
-    lines = ["from cohdl import Entity, Port, Bit, BitVector, Unsigned, Signed, Integer, op, std", "", "",
-             f"class {top}(Entity):"]
+    lines = [f"class {top}(Entity):"]
     for nme, k, w in ports["inputs"]:
         lines.append(f"    {nme} = Port.input({_ptype(k, w)})")
     for nme, k, w, _ in ports["outputs"]:
@@ -565,6 +586,290 @@ def render_runtime_entity(cell, int_values=None, top="Top"):
             else:
                 names.append(f"self.{'ab'[i]}")
         e = expr_of(op, names[0], names[1] if len(names) > 1 else "")
-        body.append(f"            self.{nme} <<= {e}")
+        body += [f"            t_{n} = {e}", f"            _cv_probe({nme!r}, t_{n})", f"            self.{nme} <<= t_{n}"]
     lines += ["", "        @std.concurrent", "        def logic():"] + body
-    return "\n".join(lines) + "\n"
+    return _HEADER + "\n".join(lines) + "\n"
+
+
+def _const_src(kind, width, value):
+    if kind == "bit":
+        return f"Bit({value})"
+    if kind == "int":
+        return f"({value})"
+    if kind == "Int":
+        return f"Integer({value})"
+    if kind == "u":
+        return f"Unsigned[{width}]({value})"
+    if kind == "s":
+        return f"Signed[{width}]({value})"
+    return f"BitVector[{width}]({format(value, f'0{width}b')!r})"
+
+
+def render_const_entity(cell, vals, rkind, rwidth, top="Top"):
+    """compiled fold: the cell's expression on constant operands (created in `architecture`, outside the
+    context), one output `o_<n>` per valuation in `vals`; the tracer folds the expression and the backend
+    has to print the result as a VHDL literal."""
+    op, kinds, widths = cell
+    lines = [f"class {top}(Entity):"]
+    for n in range(len(vals)):
+        lines.append(f"    o_{n} = Port.output({_ptype(rkind, rwidth)})")
+    lines += ["", "    def architecture(self):"]
+    body = []
+    for n, v in _enum(vals):
+        names = []
+        for i, (k, w, x) in _enum(zip(kinds, widths, v)):
+            if k == "int":
+                names.append(f"({x})")
+            else:
+                lines.append(f"        {'ab'[i]}_{n} = {_const_src(k, w, x)}")
+                names.append(f"{'ab'[i]}_{n}")
+        e = expr_of(op, names[0], names[1] if len(names) > 1 else "")
+        body.append(f"            self.o_{n} <<= {e}")
+    lines += ["", "        @std.concurrent", "        def logic():"] + body
+    return _HEADER + "\n".join(lines) + "\n"
+
+
+def _type_of_temp(C, t):
+    """(kind, width) of the Temporary the tracer created for a run-time expression."""
+    from cohdl import std
+
+    T = std.base_type(t)
+    if T is bool or issubclass(T, C.booleans[1:]):
+        return ("bool", None)
+    if issubclass(T, C.Bit):
+        return ("bit", None)
+    if issubclass(T, C.Signed):
+        return ("s", T.width)
+    if issubclass(T, C.Unsigned):
+        return ("u", T.width)
+    if issubclass(T, C.BitVector):
+        return ("bv", T.width)
+    if T is int or issubclass(T, C.Integer):
+        return ("int", None)
+    return ("other:" + getattr(T, "__name__", str(T)), None)
+
+
+from cv.gen.c19_probe import Design as _Design  # noqa: E402
+
+
+def _poke_value(kind, width, v):
+    return v % (1 << width) if kind == "s" else v
+
+
+def _finish_design_status(out, cls, ds, lvl):
+    out.status = ds.status
+    out.labels += [f"{cls}:{lvl}_{ds.status}", f"{lvl}_{ds.status}:{ds.why}", f"lvl_{lvl}"]
+    return out
+
+
+def _count_unfit(out, cell, unfit, vals, F, ip):
+    """ints that do not fit the width they adopt: simulate, count agreement/disagreement with the fold; never a finding."""
+    def bump(k, n=1):
+        out.counters[k] = out.counters.get(k, 0) + n
+
+    ds = _Design(render_runtime_entity(cell, unfit))
+    if ds.status != "ok":
+        bump("unfit_int_design_" + ds.status)
+        return
+    ports = runtime_ports(cell, unfit)
+    in_names = [(nm, k, w, "ab".index(nm)) for nm, k, w in ports["inputs"]]
+    out_of = {o[3][ip]: o[0] for o in ports["outputs"]}
+    keys = sorted({tuple(v[i] for _, _, _, i in in_names) for v in vals})
+    rs = dict(zip(keys, ds.run([{nm: _poke_value(k, w, key[j]) for j, (nm, k, w, _) in _enum(in_names)} for key in keys],
+                               list(out_of.values()))))
+    for v, f in zip(vals, F):
+        if v[ip] not in out_of or not (f[0] == "ok" and f[3] != "undef"):
+            continue
+        r = rs[tuple(v[i] for _, _, _, i in in_names)]
+        if isinstance(r, tuple):
+            bump("unfit_int_" + r[0] + "_" + r[1])
+            continue
+        rval = r[out_of[v[ip]]]
+        rval = int(rval) if isinstance(rval, bool) else rval
+        bump("unfit_int_F_R_equal" if rval == f[3] else "unfit_int_F_R_differ")
+
+
+def _check_runtime(C, out, cell):
+    """R: one compiled design per cell, all valuations simulated; F-R (the statement of C09) and R-M."""
+    op, kinds, widths = cell
+    name = cell_name(cell)
+    opname = parse_op(op)[0]
+    cls = f"{opname}.{','.join(kinds)}"
+    base = {"op": opname, "kinds": ",".join(kinds), "int_side": _int_side(kinds), "wrel": _wrel(widths), "lvl": "R"}
+    out.identity = f"R:{name}"
+    vals = valuations(cell)
+    if runtime_ports(cell) is None:
+        out.status = "unspecified"
+        out.labels += [f"{cls}:no_runtime_form", "lvl_R"]
+        return out
+    F = [fold(cell, v) for v in vals]
+    M = [model(cell, v) for v in vals]
+    int_pos = [i for i, k in _enum(kinds) if k in ("int", "Int")]
+    ip = int_pos[0] if int_pos else None
+
+    def f_defined(f):
+        return f[0] == "ok" and f[3] != "undef"
+
+    # int constants of the design: the values that are representable in the width they adopt (model-defined).
+    # The other ints of the domain for which the fold still yields a value are simulated in a second design
+    # for the counters only (statement silent: an unrepresentable int is outside the documented semantics).
+    ints = None
+    if ip is not None:
+        ints = sorted({v[ip] for v, m in zip(vals, M) if m is not UNSPEC and m.value is not None})
+        if not ints:
+            out.status = "unspecified"
+            out.labels += [f"{cls}:no_int_value", "lvl_R"]
+            return out
+        unfit = sorted({v[ip] for v, f in zip(vals, F) if f_defined(f)} - set(ints))
+        if unfit:
+            _count_unfit(out, cell, unfit, vals, F, ip)
+    ds = _Design(render_runtime_entity(cell, ints))
+    if ds.status != "ok":
+        return _finish_design_status(out, cls, ds, "R")
+    ports = runtime_ports(cell, ints)
+    outs = [o[0] for o in ports["outputs"]]
+    out_of_int = {o[3][ip]: o[0] for o in ports["outputs"]} if ip is not None else None
+
+    # type / width: F's result type against the type of the Temporary cohdl created for the run-time expression
+    ftypes = {(f[1], f[2]) for f in F if f[0] == "ok"}
+    rtypes = {_type_of_temp(C, ds.result[o]) for o in outs if o in ds.result}
+    if len(ftypes) == 1 and len(rtypes) == 1:
+        (fk, fw), (rk, rw) = next(iter(ftypes)), next(iter(rtypes))
+        if fk != rk:
+            out.add(dict(base, pair="F-R", div="type", exp=fk, got=rk),
+                    f"{name}: fold yields {fk}[{fw}], the run-time expression has type {rk}[{rw}]")
+        elif fw != rw:
+            out.add(dict(base, pair="F-R", div="width"), f"{name}: fold yields {fk}[{fw}], run-time {rk}[{rw}]")
+    elif len(rtypes) > 1:
+        out.add(dict(base, pair="F-R", div="type", exp="one", got="several"), f"{name}: run-time types {sorted(rtypes)}")
+
+    # simulate: one poke per distinct input tuple; on a run-time error fall back to one design per int value
+    in_names = [(nm, k, w, "ab".index(nm)) for nm, k, w in ports["inputs"]]
+
+    def pokes_of(v):
+        return {nm: _poke_value(k, w, v[i]) for nm, k, w, i in in_names}
+
+    keyed = {}
+    order = []
+    for v in vals:
+        key = tuple(v[i] for _, _, _, i in in_names)
+        if key not in keyed:
+            keyed[key] = pokes_of(v)
+            order.append(key)
+    sims = dict(zip(order, ds.run([keyed[k] for k in order], outs)))
+    R = {}
+    if ip is not None and any(isinstance(r, tuple) for r in sims.values()):
+        # an error in one output's expression kills the whole design: separate the int values
+        out.counters["per_int_designs"] = out.counters.get("per_int_designs", 0) + len(ints)
+        for iv in ints:
+            d1 = _Design(render_runtime_entity(cell, [iv]))
+            if d1.status != "ok":
+                for key in order:
+                    R[(iv, key)] = ("design", d1.status)
+                continue
+            rs = d1.run([keyed[k] for k in order], ["o_0"])
+            for key, r in zip(order, rs):
+                R[(iv, key)] = r if isinstance(r, tuple) else ("ok", r["o_0"])
+    else:
+        for key in order:
+            r = sims[key]
+            for o in ports["outputs"]:
+                iv = o[3][ip] if ip is not None else None
+                R[(iv, key)] = r if isinstance(r, tuple) else ("ok", r[o[0]])
+
+    n_cmp = n_rm = 0
+    seen = set()
+    for v, f, m in zip(vals, F, M):
+        iv = v[ip] if ip is not None else None
+        key = tuple(v[i] for _, _, _, i in in_names)
+        r = R.get((iv, key))
+        if r is None:
+            continue  # this int value is not in the design
+        sig = dict(base)
+        desc = f"{name} R: {expr_of(op)} with (a, b) = {v}"
+        if r[0] == "design" or r[0] == "blocked":
+            out.counters["runtime_point_blocked"] = out.counters.get("runtime_point_blocked", 0) + 1
+            continue
+        mdef = m is not UNSPEC and m.value is not None
+        if r[0] == "sim_error":
+            out.counters["sim_error_" + r[1]] = out.counters.get("sim_error_" + r[1], 0) + 1
+            if f_defined(f):
+                out.add(dict(sig, pair="F-R", div="sim_error:" + r[1]),
+                        f"{desc}: folds to {V(f[1], f[2], f[3])}, the emitted VHDL stops with {r[1]}")
+            elif mdef:
+                out.add(dict(sig, pair="R-M", div="sim_error:" + r[1]),
+                        f"{desc}: documented {m}, the emitted VHDL stops with {r[1]}")
+            continue
+        rval = r[1]
+        if isinstance(rval, bool):
+            rval = int(rval)
+        if f_defined(f):
+            n_cmp += 1
+            seen.add(rval)
+            if rval is None:
+                out.add(dict(sig, pair="F-R", div="undefined_bits"),
+                        f"{desc}: folds to {V(f[1], f[2], f[3])}, simulated output has undefined bits")
+            elif rval != f[3]:
+                out.add(dict(sig, pair="F-R", div="value"),
+                        f"{desc}: folds to {V(f[1], f[2], f[3])}, emitted logic yields {rval}")
+        elif f[0] == "rejected":
+            out.counters["fold_rejected"] = out.counters.get("fold_rejected", 0) + 1
+        if mdef:
+            n_rm += 1
+            if rval is None:
+                out.add(dict(sig, pair="R-M", div="undefined_bits"), f"{desc}: documented {m}, simulated output undefined")
+            elif rval != m.value:
+                out.add(dict(sig, pair="R-M", div="value"), f"{desc}: documented {m}, emitted logic yields {rval}")
+    out.counters.update({"valuations": len(vals), "valuations_R": len(vals), "compared_F_R": n_cmp,
+                         "compared_R_M": n_rm})
+    out.labels += [f"{cls}:R_simulated", "lvl_R"]
+    if n_cmp or n_rm:
+        out.exhaustive_cell = out.identity
+    out.nontrivial = n_cmp > 0 and len(seen) >= 2
+    return out
+
+
+def _check_compiled_fold(C, out, cell, max_points=48):
+    """C: the fold with the backend on the path - constants compiled into a design, output simulated."""
+    op, kinds, widths = cell
+    name = cell_name(cell)
+    opname = parse_op(op)[0]
+    cls = f"{opname}.{','.join(kinds)}"
+    base = {"op": opname, "kinds": ",".join(kinds), "int_side": _int_side(kinds), "wrel": _wrel(widths), "lvl": "C",
+            "pair": "C-F"}
+    out.identity = f"C:{name}"
+    vals = valuations(cell)
+    F = [fold(cell, v) for v in vals]
+    good = [(v, f) for v, f in zip(vals, F) if f[0] == "ok" and f[3] != "undef" and _ptype(f[1], f[2])]
+    if not good:
+        out.status = "unspecified"
+        out.labels += [f"{cls}:no_compiled_form", "lvl_C"]
+        return out
+    step = -(-len(good) // max_points)
+    good = good[::step]
+    rk, rw = good[0][1][1], good[0][1][2]
+    ds = _Design(render_const_entity(cell, [v for v, _ in good], rk, rw))
+    if ds.status != "ok":
+        return _finish_design_status(out, cls, ds, "C")
+    outs = [f"o_{n}" for n in range(len(good))]
+    r = ds.run([{}], outs)[0]
+    if isinstance(r, tuple):
+        out.add(dict(base, div="sim_error:" + r[1]), f"{name} C: design with literal results stops with {r[1]}")
+        out.labels += [f"{cls}:C_simulated", "lvl_C"]
+        return out
+    seen = set()
+    for n, (v, f) in _enum(good):
+        rval = r[f"o_{n}"]
+        if isinstance(rval, bool):
+            rval = int(rval)
+        seen.add(rval)
+        desc = f"{name} C: {expr_of(op)} with constants (a, b) = {v}"
+        if rval is None:
+            out.add(dict(base, div="undefined_bits"), f"{desc}: folds to {V(f[1], f[2], f[3])}, compiled literal undefined")
+        elif rval != f[3]:
+            out.add(dict(base, div="value"), f"{desc}: folds to {V(f[1], f[2], f[3])}, compiled literal reads {rval}")
+    out.counters.update({"valuations": len(good), "valuations_C": len(good), "compared_C_F": len(good)})
+    out.labels += [f"{cls}:C_simulated", "lvl_C"]
+    out.exhaustive_cell = None
+    out.nontrivial = len(seen) >= 2
+    return out
